@@ -20,6 +20,7 @@ func C02(thorough bool, yield func(Program)) {
 	}
 	C02Events(yield)
 	C02Failed(yield)
+	C02Host(yield)
 	maxD := 3
 	if thorough {
 		maxD = 5
